@@ -23,7 +23,7 @@ from comb_spec_searcher.exception import NoMoreClassesToExpandError
 from comb_spec_searcher.strategies.strategy_pack import StrategyPack
 
 ID = "C16"
-QUICK_RUNS = 20000
+QUICK_RUNS = 16000
 CHUNK = 250
 THOROUGH_BUDGET_S = 600
 LEVEL = "exploration"
@@ -102,7 +102,7 @@ def gen(rng, tier):
     return {"layer": "machine", "pack": [n_inf, n_init, sets], "n_labels": n_labels, "ops": ops}
 
 
-SEARCH_FRACTION = 0.0
+SEARCH_FRACTION = 0.1
 
 
 def make_pack(shape):
